@@ -1,5 +1,5 @@
 (* C07 - cleanup.  Statements only: soundness of the executable oracles applied to the implementation's snapshots. *)
-Require Import FL.Base.Bytes FL.Base.BytesFacts FL.Base.PathName FL.Fs.Fs FL.Names.FileSpec FL.Names.SortFacts FL.Fs.FsFacts FL.Flw.Model FL.Flw.ModelFacts FL.Flw.NumFs FL.Flw.CleanupFacts FL.Oracles.ReaderOrder FL.Oracles.O_Stream FL.Properties.C06.
+Require Import FL.Base.Bytes FL.Base.BytesFacts FL.Base.PathName FL.Fs.Fs FL.Names.FileSpec FL.Names.SortFacts FL.Fs.FsFacts FL.Flw.Model FL.Flw.ModelFacts FL.Flw.NumFs FL.Flw.CleanupFacts FL.Flw.CleanupCur FL.Oracles.ReaderOrder FL.Oracles.O_Stream FL.Properties.C06.
 From Coq Require Import Permutation Sorted.
 Open Scope nat_scope.
 
@@ -82,25 +82,31 @@ Proof. exact (compress_file_quiet w n i). Qed.
 
 (* the cleanup proper (redundant archives first, then the loop over the newest-first listing), without faults: the first
    ll entries stay as they are, the next total - ll are archives afterwards (an archive stays, a plain file is replaced by
-   its archive with the same content), everything beyond is removed, nothing else changes *)
-Theorem C07_cleanup_keeps_newest w files ll total :
+   its archive with the same content), everything beyond is removed, nothing else changes.
+   For EVERY cur (the repaired code hands the current output file to the cleanup, cur = Some path, with the direct namings;
+   None otherwise): the entry equal to cur is skipped - it stays as it is wherever the listing puts it, and its position
+   still counts.  (is_cur None n = false and not_gzc None n = not_gz n: for cur = None this is the statement as it was.) *)
+Theorem C07_cleanup_keeps_newest w files ll total cur :
   quiet w -> fs_wf (wfs w) -> NoDup files -> ~ In [] files -> ll <= total ->
   (forall n, In n files -> lookup (wfs w) n <> None) ->
   (forall n, In n files -> not_dir (wfs w) (gz_name n)) ->
   let red := redundant_gz files in
   let files' := without red files in
   exists w1 w', remove_redundant w red files = (true, w1, files')
-    /\ cleanup_loop w1 files' 0 ll total = (true, w') /\ same_env w w' /\ fs_wf (wfs w')
+    /\ cleanup_loop w1 files' 0 ll total cur = (true, w') /\ same_env w w' /\ fs_wf (wfs w')
     (* a redundant archive is gone - unless its original is compressed now, which creates it anew (see the zone) *)
-    /\ (forall n, In n red -> ~ In n (map gz_name (filter not_gz (zone_part ll total files'))) -> lookup (wfs w') n = None)
+    /\ (forall n, In n red -> ~ In n (map gz_name (filter (not_gzc cur) (zone_part ll total files'))) -> lookup (wfs w') n = None)
     /\ (forall n, In n (keep_part ll files') -> same_at (wfs w) (wfs w') n)
     /\ (forall n, In n (zone_part ll total files') ->
-          if ext_is n gz_sfx then same_at (wfs w) (wfs w') n else archived (wfs w) (wfs w') n)
-    /\ (forall n, In n (gone_part total files') -> lookup (wfs w') n = None)
+          if ext_is n gz_sfx || is_cur cur n then same_at (wfs w) (wfs w') n else archived (wfs w) (wfs w') n)
+    /\ (forall n, In n (gone_part total files') ->
+          if is_cur cur n then same_at (wfs w) (wfs w') n else lookup (wfs w') n = None)
     /\ length (keep_part ll files') <= ll /\ length (zone_part ll total files') <= total - ll
-    /\ (forall m, ~ In m files -> ~ In m (map gz_name (filter not_gz (zone_part ll total files'))) ->
-          same_at (wfs w) (wfs w') m).
-Proof. exact (cleanup_after_listing w files ll total). Qed.
+    /\ (forall m, ~ In m files -> ~ In m (map gz_name (filter (not_gzc cur) (zone_part ll total files'))) ->
+          same_at (wfs w) (wfs w') m)
+    (* the current output file: untouched wherever it is listed *)
+    /\ (forall p, cur = Some p -> In p files' -> same_at (wfs w) (wfs w') p).
+Proof. exact (cleanup_after_listingc w files ll total cur). Qed.
 
 Require Import FL.Flw.Run FL.Flw.NumInv FL.Flw.NumRun FL.Flw.NumTheorems FL.Flw.NumCleanupNames FL.Flw.NumCleanupStep FL.Flw.NumCleanupRun FL.Flw.NumCleanup FL.Oracles.O_Flw.
 Local Open Scope nat_scope.
@@ -191,8 +197,8 @@ Check C07_numbers_cleanup_bg.
 Print Assumptions C07_numbers_cleanup_bg.
 
 (* END TO END, NumbersDirect naming (no rCURRENT: the file being written is r<L>, L = number of closed files).  The file being
-   written is part of the listing the cleanup works on and COUNTS for the first limit; the code raises a first limit of 0 to 1,
-   which is what protects it.  (n, m) = klimd k = (max 1 n0, m) for KeepLogAndCompressedFiles(n0, m) (KeepLogFiles(n0): m = 0,
+   written is part of the listing the cleanup works on and COUNTS for the first limit; the code raises a first limit of 0 to 1
+   (and, repaired, skips the file it is told to be the current one: C07_cleanup_spares_current).  (n, m) = klimd k = (max 1 n0, m) for KeepLogAndCompressedFiles(n0, m) (KeepLogFiles(n0): m = 0,
    KeepCompressedFiles(m): n0 = 0): in the end exactly the current file and the newest n - 1 closed files (plain, as they
    were closed) and the next m (complete archives of exactly what the file held) exist; everything older is gone; the current
    file is never compressed or removed; what survives, read by number, is a suffix of what was written (side conditions: the
@@ -273,11 +279,14 @@ Proof. exact (list_log_gz_ts c e off f keys closed lo mid). Qed.
 
 (* END TO END, TimestampsDirect naming (no rCURRENT: the file being written carries the newest key, L = number of closed files).
    As for NumbersDirect naming the file being written is part of the listing and COUNTS for the first limit; the code raises a
-   first limit of 0 to 1, which is what protects it: (n, m) = klimd k = (max 1 n0, m).  In the end exactly the current file
+   first limit of 0 to 1 (and, repaired, skips the file it is told to be the current one): (n, m) = klimd k = (max 1 n0, m).  In the end exactly the current file
    and the newest n - 1 closed files (plain, as they were closed) and the next m (complete archives of exactly what the file
    held) exist; everything older is gone; the current file is never compressed or removed; what survives, read in key order, is
-   a suffix of what was written.  (tick_ok is necessary: with a clock that goes backwards the cleanup removes or compresses
-   the file that is being written, and records are lost without any error - Flw/TsdCleanup.clock_backwards_current_removed.) *)
+   a suffix of what was written.  (tick_ok is needed for the retention statement only: with a clock that goes backwards the
+   limits count positions of a listing that is no longer in the order of writing.  The file that is being written is spared
+   WHATEVER the clock does - the repaired cleanup is told which file it is and skips it: Flw/CurrentSpared.v,
+   C07_current_never_cleaned below; this was the finding clock_backwards_current_removed, now the positive Example
+   Flw/TsdCleanup.clock_backwards_current_spared.) *)
 Theorem C07_timestampsdirect_cleanup c crit k n m t0 off ops closed cur :
   tsdkcfg c crit k -> klimd k = Some (n, m) -> tag_ok c -> sfx_ok (c_spec c) ->
   Forall basic_op ops -> Forall tick_ok ops ->
@@ -493,3 +502,44 @@ Print Assumptions C07_numbersdirect_cleanup_no_panic_bg.
    exdb_instance, exdb_instance_names; where the variants differ (a failing cleanup): exdb_fault *)
 Check exdb_side_by_side.
 Check exdb_instance_names.
+
+(* ------------------------------------------------------------------ THE CURRENT OUTPUT FILE IS NEVER CLEANED UP *)
+(* (the repaired cleanup, list_and_cleanup.rs: remove_or_compress_too_old_logfiles_impl(.., o_current); model: cleanup_impl
+   with cur : option bytes in the place of direct : bool.  Flw/CurrentSpared.v) *)
+Require Import FL.Flw.CurrentSpared.
+
+(* EVERY world - fault oracle, kill counter, whatever the directory holds, whatever the order of the listing and the limits
+   are, whatever the result is -: the file p that the cleanup is told to be the current output file (cur = Some p) is, if it
+   exists, the same file afterwards (same inode, same content, same kind: a plain file is not compressed).  The name must not
+   end in ".gz" (necessary: CurrentSpared.archive_name_not_spared). *)
+Theorem C07_cleanup_spares_current c w k flt p i r w' :
+  fs_wf (wfs w) -> strip_suffix (dot :: gz_sfx) p = None ->
+  lookup (wfs w) p = Some i ->
+  cleanup_impl c w k flt (Some p) = (r, w') ->
+  fs_wf (wfs w') /\ lookup (wfs w') p = Some i /\ inode (wfs w') i = inode (wfs w) i.
+Proof. exact (cleanup_spares_current c w k flt p i r w'). Qed.
+
+(* EVERY history of basic operations of a TimestampsDirect writer with a cleanup strategy, the clock anywhere in the years
+   1970..9999 at every instant - NO tick_ok: it may be set back -: after every operation (the history is arbitrary: after every
+   prefix, CurrentSpared.timestampsdirect_current_never_cleaned_prefix) the file the writer writes to exists under the name
+   and with the inode the writer has for it, is plain, and holds - with what the writer still buffers - exactly what was
+   written to it since it was opened (since_opened: the count restarts when the writer has another file than before). *)
+Theorem C07_current_never_cleaned c crit k t0 off ops :
+  tsdkcfg c crit k -> tag_ok c -> sfx_ok (c_spec c) -> Forall basic_op ops ->
+  clock_in_years (ts_e c off) t0 ops ->
+  let x := fst (run (sys0 t0 off) (OStart c :: ops)) in
+  forall path ino, writer_file x = Some (path, ino) ->
+  exists s o_rot wr fl,
+    s_flw x = Some s /\ f_inner s = Active o_rot wr path /\ wino wr = ino
+    /\ lookup (wfs (s_w x)) path = Some ino /\ file_of (wfs (s_w x)) path = Some fl
+    /\ fgz fl = 0%N /\ fdir fl = false
+    /\ fdata fl ++ wpend wr = since_opened (sys0 t0 off) [] (OStart c :: ops).
+Proof. exact (timestampsdirect_current_never_cleaned c crit k t0 off ops). Qed.
+
+Print Assumptions C07_cleanup_spares_current.
+Print Assumptions C07_current_never_cleaned.
+(* non-vacuity: CurrentSpared.cleanup_spares_current_instance (the current file listed last, KLog 1 and KGz 1),
+   CurrentSpared.clock_backwards_hypotheses / current_never_cleaned_instance (the clock set back by 5 seconds),
+   TsdCleanup.clock_backwards_current_spared (the directories) *)
+Check cleanup_spares_current_instance.
+Check current_never_cleaned_instance.
